@@ -231,10 +231,54 @@ pub fn gen_non_request(rng: &mut Rng) -> Vec<u8> {
     build(ty, &id, &attrs)
 }
 
+/// A binding request whose last attribute announces `declared` value bytes but is followed by
+/// `present` bytes only (fewer, exactly as many, or more - unpadded and stray bytes included);
+/// the message length covers exactly what is there. `lead`: a well-formed attribute in front.
+pub fn tlv_case(id: &[u8; 16], ty: u16, declared: u16, present: &[u8], lead: bool) -> Vec<u8> {
+    let mut body = Vec::new();
+    if lead {
+        body.extend_from_slice(&[0x80, 0x22, 0, 4, b'a', b'b', b'c', b'd']);
+    }
+    body.extend_from_slice(&ty.to_be_bytes());
+    body.extend_from_slice(&declared.to_be_bytes());
+    body.extend_from_slice(present);
+    let mut m = vec![0, 1];
+    m.extend_from_slice(&(body.len() as u16).to_be_bytes());
+    m.extend_from_slice(id);
+    m.extend_from_slice(&body);
+    m
+}
+
 /// Hostile / malformed STUN-looking datagrams (for C01; every other property treats them as don't-care).
 pub fn gen_hostile(rng: &mut Rng) -> Vec<u8> {
     let mut m = gen_binding_request(rng);
-    match rng.below(8) {
+    match rng.below(10) {
+        8 | 9 => {
+            // last attribute of an interpreted or opaque type with every relation between the
+            // announced and the present number of value bytes
+            let magic = rng.chance(3, 4);
+            let id = gen_id(rng, magic);
+            let ty = *rng.pick(&[1u16, 1, 3, 3, 0x0020, 0x8022]);
+            let declared = match rng.below(4) {
+                0 => rng.below(5),
+                1 => *rng.pick(&[7u64, 8, 9, 19, 20, 21]),
+                2 => rng.below(32),
+                _ => rng.below(0x10000),
+            } as u16;
+            let present = match rng.below(4) {
+                0 => declared as usize,
+                1 => (declared as usize + 3) & !3,
+                2 => rng.below(declared as u64 + 1) as usize,
+                _ => declared as usize + rng.range(1, 5) as usize,
+            }
+            .min(600);
+            let mut val = rng.bytes(present);
+            if ty == 1 && val.len() >= 2 && rng.chance(1, 2) {
+                val[1] = *rng.pick(&[1u8, 2]);
+            }
+            let lead = rng.chance(1, 3);
+            m = tlv_case(&id, ty, declared, &val, lead);
+        }
         0 => {
             // attribute length beyond the message
             let id = gen_id(rng, true);
